@@ -457,10 +457,120 @@ def main():
         return getattr(mod, rec["replay"]["func"])(rec)
     C.load_all()
     con = C.CONTRACTS.get((rec["file"], rec["function"]))
-    if con is None or rec.get("cex") is None:
-        print("no concrete counterexample in the record")
+    if con is None:
+        print("no contract for the function in the record")
         return 0
-    cex = rec["cex"]
+    if rec.get("cex") is None:
+        # the verifier gave no model: look for a failing input ourselves
+        # (small-scope random search against the same contract text)
+        return search(con, rec)
+    return replay_cex(con, rec, rec["cex"])
+
+
+def rand_json(ty, rng, strings, depth=0):
+    p = parse_type(ty) if isinstance(ty, str) else ty
+    k = p[0]
+    reals = [-2.5, -1.0, -0.5, 0.0, 0.25, 0.5, 1.0, 1.5, 3.0]
+    if k in ("Int", "Nat"):
+        return rng.choice([0, 1, 2, 3, 4, 5])
+    if k == "Real":
+        return rng.choice(reals)
+    if k == "Bool":
+        return rng.random() < 0.5
+    if k == "Str":
+        return rng.choice(strings) if strings else "x"
+    if k == "Sort":
+        return f"{p[1]}!val!{rng.randrange(4)}"
+    if k == "Opt":
+        return None if rng.random() < 0.3 else rand_json(p[1], rng, strings)
+    if k in ("Any", "None", "Pool"):
+        return None if k != "Pool" else {"__pool__": True}
+    if k in ("Seq", "List"):
+        n = rng.choice([0, 1, 1, 2, 2, 3, 4])
+        if parse_type(p[1])[0] == "Real" and rng.random() < 0.5:
+            vals = sorted(rng.choice(reals) for _ in range(n))
+            return vals
+        return [rand_json(p[1], rng, strings, depth + 1) for _ in range(n)]
+    if k == "Struct":
+        n = rng.choice([0, 1, 2, 3, 4])
+        cols = {}
+        for f, fty in p[1]:
+            col = [rand_json(fty, rng, strings) for _ in range(n)]
+            if f == "logL" and rng.random() < 0.7:
+                col = sorted(col)
+            cols[f] = col
+        return {"__struct__": cols, "__n__": n}
+    if k == "Row":
+        return {"__row__": {f: rand_json(fty, rng, strings)
+                            for f, fty in p[1]}}
+    if k == "Tuple":
+        return {"__tuple__": [rand_json(t, rng, strings) for t in p[1]]}
+    if k == "Tbl":
+        n = rng.choice([0, 1, 2, 3])
+        return {"__tbl__": [[rng.choice(reals) for _ in range(3)]
+                            for _ in range(n)]}
+    if k == "Func":
+        return {"__func__": {}, "default": rng.choice(reals)}
+    if k == "Obj":
+        sh = C.SHAPES[p[1]]
+        return {"__obj__": sh.cls,
+                "attrs": {a: rand_json(t, rng, strings, depth + 1)
+                          for a, t in sh.attrs.items()}}
+    raise ValueError(f"cannot generate {ty}")
+
+
+def search(con, rec, trials=400):
+    import random
+    import re as _re
+    rng = random.Random(12345)
+    texts = " ".join(list(con.requires) + list(con.ensures) +
+                     [str(v) for v in con.raises.values()])
+    strings = sorted(set(_re.findall(r"'([A-Za-z_]+)'", texts))) + ["other"]
+    if any(c for c in C.CONTRACTS.values() if False):
+        pass
+    tried = 0
+    for _t in range(trials):
+        inputs = {}
+        try:
+            if con.cls is not None:
+                inputs["self"] = rand_json(
+                    f"Obj({con.self_shape or con.cls})", rng, strings)
+            for n, ty in con.params.items():
+                if n.startswith("*") or (isinstance(ty, tuple) and ty and
+                                         ty[0] == "const"):
+                    continue
+                inputs[n] = rand_json(ty, rng, strings)
+        except Exception as ex:
+            print(f"search: cannot generate inputs: {ex!r}")
+            return 0
+        cex = {"inputs": inputs, "calls": []}
+        rc = replay_cex(con, rec, cex, quiet=True)
+        if rc == 10:
+            print("(failing input found by small-scope search over the "
+                  "contract's input types; the verifier gave no model)")
+            return replay_cex(con, rec, cex, quiet=False)
+        if rc != 77:
+            tried += 1
+    print(f"small-scope search: {tried} admissible inputs of {trials} tried, "
+          f"none violates the postconditions at run time")
+    return 0
+
+
+def replay_cex(con, rec, cex, quiet=False):
+    import io
+    import contextlib
+    if quiet:
+        buf = io.StringIO()
+        with contextlib.redirect_stdout(buf):
+            try:
+                return _replay_cex(con, rec, cex, True)
+            except Exception:
+                return 3
+    return _replay_cex(con, rec, cex, False)
+
+
+def _replay_cex(con, rec, cex, searching):
+    GHOSTS.clear()
     mod = rec["file"][:-3].replace("/", ".")
     m = importlib.import_module(mod)
     target = m
@@ -487,11 +597,11 @@ def main():
             ok = eval_spec(e, env, env, None)
         except Exception as ex:
             print(f"precondition not evaluable at run time: {e!r}: {ex!r}")
-            return 0
+            return 77 if searching else 0
         if not ok:
             print(f"counterexample does not satisfy precondition {e!r} at "
                   f"run time (model artefact): not reproduced")
-            return 0
+            return 77 if searching else 0
     old = {k: deep(v) for k, v in env.items()}
     args = dict(env)
     final_locals = {}
